@@ -123,8 +123,28 @@ def run(pid, fams, tier, rdir, seed):
         elif fam == "spawn_agree":
             b2 = build2()
             if b2.returncode != 0:
-                # the programs are well-typed under the plain macros: a compile error in the spawn expansion is reported
-                res["undecided"].append("R: spawn_agree programs did not build: %s" % b2.stderr[-600:])
+                # every program is instantiated under all macros of its agreement class by ONE macro_rules template: if rustc
+                # rejects the expansion of some macros of a class and accepts the others, the variants do not agree (C07)
+                import re
+                blocks = [b_ for b_ in re.split(r"\n(?=error)", "\n" + b2.stderr) if b_.strip().startswith("error") and not b_.strip().startswith("error: could not compile") and not b_.strip().startswith("error: aborting")]
+                origins = [set(re.findall(r"originates in the macro `(\w+)`", b_)) for b_ in blocks]
+                classes = [("join", "join_spawn", "spawn"), ("try_join", "try_join_spawn", "try_spawn"),
+                           ("join_async", "join_async_spawn", "async_spawn"), ("try_join_async", "try_join_async_spawn", "try_async_spawn")]
+                all12 = set(m for c in classes for m in c)
+                failing = set(m for o in origins for m in o if m in all12)
+                split = [c for c in classes if 0 < len(failing & set(c)) < len(c)]
+                if blocks and all(o & all12 for o in origins) and split:
+                    path = os.path.join(rdir, "R-spawn_agree-build.txt")
+                    with open(path, "w") as fh:
+                        fh.write("property: %s\nfailed obligation: the same program must compile (and agree) under every macro of its agreement class\n" % pid)
+                        for c in split:
+                            fh.write("class %s: rejected under %s, accepted under %s\n" % (c, sorted(failing & set(c)), sorted(set(c) - failing)))
+                        fh.write("\n%s\n\nreplay: cd %s && cargo build --offline\n" % (b2.stderr[-6000:], RAC2))
+                    res["cases"] += 1
+                    res["violations"].append({"engine": "R", "obligation": "spawn_agree(build)", "key": "R:spawn_agree:build", "replay": path, "found_input": True,
+                                              "summary": ("compiles under %s but not under %s: %s" % (sorted(set(split[0]) - failing), sorted(failing & set(split[0])), blocks[0].split("\n")[0]))[:220]})
+                else:
+                    res["undecided"].append("R: spawn_agree programs did not build: %s" % b2.stderr[-600:])
                 continue
             p = subprocess.run([os.path.join(RAC2, "target", "debug", "rac2"), "3" if tier == "quick" else "25"], capture_output=True, text=True, timeout=3600)
         else:
